@@ -533,7 +533,7 @@ def h_molecule_api(V):
     import chython
     from chython import MoleculeContainer
     _install()
-    smi = V.choice('seed', _SMALL + ['C[C@@H]1CC[C@H](O)O1', 'FC=[C@]=CCl', 'CC(C)(C)C', '[Fe+2].[Cl-].[Cl-]', 'C/C=C/C=C\\F'])
+    smi = V.choice('seed', _SMALL + ['C[C@@H]1CC[C@H](O)O1', 'FC=[C@]=CCl', 'CC(C)(C)C', '[Fe+2].[Cl-].[Cl-]', 'C/C=C/C=C\\F', 'C/C=C=C=C/C', 'C/C=C=C=C\\F'])
     m = chython.smiles(smi)
     comp = bool(V.bool('compressed'))
     d = m.pack(compressed=comp)
